@@ -324,7 +324,16 @@ pub fn run(o: &Opts) -> i32 {
                 }
             }
             // ---- library in fresh processes, every argument map
-            for ai in 0..case.args.len() {
+            // quick: at most three argument maps per case and flag (first, last, one drawn)
+            let pick_ai: Vec<usize> = if thorough || case.args.len() <= 3 {
+                (0..case.args.len()).collect()
+            } else {
+                let mut v = vec![0, case.args.len() - 1, 1 + rng.below(case.args.len() - 2)];
+                v.sort();
+                v.dedup();
+                v
+            };
+            for ai in pick_ai {
                 let reference = match golden.get(&(ci, ai, debug)) {
                     Some(r) => r.clone(),
                     None => return 2,
